@@ -195,6 +195,9 @@ def run(ctx):
     if not quick:
         ctx.harness_race_run("c07", ["-out", "race7.jsonl", "-seed", ctx.seed + 9, "-n", 0, "-cancel", 400], "in the packet engine under cancellation")
         ctx.harness_race_run("c08", ["-out", "race8.jsonl", "-seed", ctx.seed + 9, "-n", 0, "-cancel", 400], "in the application engine under cancellation")
+    if ctx.broken and not ctx.findings and any("afpacket" in n or "start" in n for n in getattr(ctx, "source_diff", [])):
+        # the packet source or the engine start changed: the crash needs a frame arriving after an engine ended
+        e2e_chunk_late_reply(ctx, 30, 10)
     if ctx.broken and not ctx.findings and rows:
         for gmp in ("1", "2", "16"):
             more = batch(ctx, ctx.seed + 50 + int(gmp), 300, 300, tag="_s" + gmp, env={"GOMAXPROCS": gmp})
